@@ -92,32 +92,29 @@ class ParserState:
 
         with self.suppress_failures():
             while True:
-                matched = False
-
                 if whitespace_rule:
                     self.checkpoint()
-                    matched = whitespace_rule.parse(self, children)
-                    if matched:
+                    if whitespace_rule.parse(self, children):
+                        self.ok()
                         some = True
                         pairs.extend(children)
-                        self.ok()
-                    else:
-                        self.restore()
+                        children.clear()
+                        continue
+                    self.restore()
                     children.clear()
 
                 if comment_rule:
                     self.checkpoint()
-                    matched = comment_rule.parse(self, children) or matched
-                    if matched:
+                    if comment_rule.parse(self, children):
+                        self.ok()
                         some = True
                         pairs.extend(children)
-                        self.ok()
-                    else:
-                        self.restore()
+                        children.clear()
+                        continue
+                    self.restore()
                     children.clear()
 
-                if not matched:
-                    break
+                break
 
         return some
 
